@@ -7,7 +7,7 @@ SOL = "fidget-solver/src/lib.rs"
 
 
 def txt(n):
-    return A.unparse(n).replace(" ", "")
+    return A.ftxt(n)
 
 
 def r1_free_fixed(rule, root=None):
